@@ -67,11 +67,11 @@ pub static mut ORACLE: Oracle = Oracle {
     u8s: [empty(0); SLOTS],
 };
 
-/// Placeholder tokens: one ASCII lower-case letter, optionally surrounded by nothing else.
+/// Placeholder tokens: `$` followed by one ASCII lower-case letter (`$a` .. `$z`).
 fn slot_of(s: &str) -> Option<usize> {
     let b = s.as_bytes();
-    if b.len() == 1 && b[0] >= b'a' && b[0] <= b'z' {
-        Some((b[0] - b'a') as usize)
+    if b.len() == 2 && b[0] == b'$' && b[1] >= b'a' && b[1] <= b'z' {
+        Some((b[1] - b'a') as usize)
     } else {
         None
     }
@@ -113,11 +113,7 @@ fn int_err() -> ParseIntError {
 pub fn f64_from_str(s: &str) -> Result<f64, ParseFloatError> {
     if let Some(i) = slot_of(s) {
         let slot = unsafe { &mut ORACLE.f64s[i] };
-        if !slot.init {
-            slot.init = true;
-            slot.ok = kani::any();
-            slot.val = kani::any();
-        }
+        assert!(slot.init, "oracle token parsed but never seeded by the harness");
         return if slot.ok { Ok(slot.val) } else { Err(float_err()) };
     }
     match concrete_int(s) {
@@ -132,11 +128,7 @@ pub fn f64_from_str(s: &str) -> Result<f64, ParseFloatError> {
 pub fn f32_from_str(s: &str) -> Result<f32, ParseFloatError> {
     if let Some(i) = slot_of(s) {
         let slot = unsafe { &mut ORACLE.f32s[i] };
-        if !slot.init {
-            slot.init = true;
-            slot.ok = kani::any();
-            slot.val = kani::any();
-        }
+        assert!(slot.init, "oracle token parsed but never seeded by the harness");
         return if slot.ok { Ok(slot.val) } else { Err(float_err()) };
     }
     match concrete_int(s) {
@@ -148,11 +140,7 @@ pub fn f32_from_str(s: &str) -> Result<f32, ParseFloatError> {
 pub fn i32_from_str(s: &str) -> Result<i32, ParseIntError> {
     if let Some(i) = slot_of(s) {
         let slot = unsafe { &mut ORACLE.i32s[i] };
-        if !slot.init {
-            slot.init = true;
-            slot.ok = kani::any();
-            slot.val = kani::any();
-        }
+        assert!(slot.init, "oracle token parsed but never seeded by the harness");
         return if slot.ok { Ok(slot.val) } else { Err(int_err()) };
     }
     match concrete_int(s) {
@@ -164,11 +152,7 @@ pub fn i32_from_str(s: &str) -> Result<i32, ParseIntError> {
 pub fn u8_from_str(s: &str) -> Result<u8, ParseIntError> {
     if let Some(i) = slot_of(s) {
         let slot = unsafe { &mut ORACLE.u8s[i] };
-        if !slot.init {
-            slot.init = true;
-            slot.ok = kani::any();
-            slot.val = kani::any();
-        }
+        assert!(slot.init, "oracle token parsed but never seeded by the harness");
         return if slot.ok { Ok(slot.val) } else { Err(int_err()) };
     }
     match concrete_int(s) {
@@ -265,4 +249,43 @@ pub fn seed_u8(c: u8) -> Option<u8> {
 pub fn from_utf8_valid_only(v: &[u8]) -> Result<&str, core::str::Utf8Error> {
     kani::assume(crate::refmodel::utf8::is_valid_utf8(v));
     Ok(unsafe { core::str::from_utf8_unchecked(v) })
+}
+
+/// Template text -> the text the parser is run on. Under the solver this is the template itself
+/// (the number stubs interpret the `$x` tokens). In a native replay (`--cfg verif_playback`, no
+/// stubs) every `$x` is replaced by the decimal text of the value the solver chose (or by text
+/// that does not parse when the oracle said "parse error"), so the real `str::parse` is exercised.
+#[cfg(not(verif_playback))]
+pub fn tok_line(template: &'static str) -> &'static str {
+    template
+}
+
+#[cfg(verif_playback)]
+pub fn tok_line(template: &'static str) -> &'static str {
+    let b = template.as_bytes();
+    let mut out = String::new();
+    let mut i = 0;
+    while i < b.len() {
+        if b[i] == b'$' && i + 1 < b.len() && b[i + 1] >= b'a' && b[i + 1] <= b'z' {
+            let k = (b[i + 1] - b'a') as usize;
+            let o = unsafe { &*core::ptr::addr_of!(ORACLE) };
+            let text = if o.f64s[k].init {
+                if o.f64s[k].ok { format!("{:?}", o.f64s[k].val) } else { "!".to_string() }
+            } else if o.f32s[k].init {
+                if o.f32s[k].ok { format!("{:?}", o.f32s[k].val) } else { "!".to_string() }
+            } else if o.i32s[k].init {
+                if o.i32s[k].ok { format!("{}", o.i32s[k].val) } else { "!".to_string() }
+            } else if o.u8s[k].init {
+                if o.u8s[k].ok { format!("{}", o.u8s[k].val) } else { "!".to_string() }
+            } else {
+                format!("${}", b[i + 1] as char)
+            };
+            out.push_str(&text);
+            i += 2;
+        } else {
+            out.push(b[i] as char);
+            i += 1;
+        }
+    }
+    Box::leak(out.into_boxed_str())
 }
